@@ -402,6 +402,10 @@ def r_round_half_even(a):
 
 
 def cmp(op, a, b):
+    if hasattr(a, "__aovc_sop__") or hasattr(b, "__aovc_sop__"):
+        r = _plug("cmp" + op, a, b)
+        if r is not NotImplemented:
+            return r
     if is_conc(a) and is_conc(b):
         a, b = _num(a), _num(b)
         return {"<": a < b, "<=": a <= b, ">": a > b, ">=": a >= b, "==": a == b, "!=": a != b}[op]
@@ -447,6 +451,10 @@ def b_not(x):
 def ite(c, a, b):
     if isinstance(c, bool):
         return a if c else b
+    if hasattr(a, "__aovc_sop__") or hasattr(b, "__aovc_sop__"):
+        r = (a if hasattr(a, "__aovc_sop__") else b).__aovc_sop__("ite", (c, a), b, None)
+        if r is not NotImplemented:
+            return r
     if isinstance(a, (Cx,)) or isinstance(b, (Cx,)):
         a, b = to_cx(a), to_cx(b)
         return Cx(ite(c, a.re, b.re), ite(c, a.im, b.im))
